@@ -10,56 +10,69 @@ namespace MongoModel.Proofs.C04
 open MongoModel MongoModel.Expr MongoModel.Spec
 
 theorem asVar_asName (gs : Fields) (name : String) (h : asVar gs = .ok name) :
-    asName gs = some name := by
+    asName gs = some name ∧ validVarName name = true := by
   unfold asVar at h
   unfold asName
   cases hd : dget "as" gs with
-  | none => simp [hd] at h; simp [h]
+  | none =>
+    simp [hd] at h
+    subst h
+    exact ⟨rfl, by decide⟩
   | some w =>
     cases w <;> simp [hd] at h
     rename_i s
     split at h
-    · simp at h; simp [h]
-    · cases h
+    · simp [unmodelled] at h
+    · split at h
+      · rename_i hu
+        simp at h
+        subst h
+        exact ⟨rfl, userVar_valid s hu⟩
+      · cases h
 
 /-- how `eval` runs `$map` on any argument document -/
 theorem map_unfold (c : Ctx) (gs : Fields) :
     eval c (.doc [("$map", .doc gs)]) =
       (if (!(dhas "input" gs) || !(dhas "in" gs)) = true then .error .opFail
        else if gs.any (fun kv => !(["input", "as", "in"].contains kv.1)) = true then .error .opFail
-       else (evalAt c "input" gs).bind (fun r =>
-         match r with
-         | none | some .null => .ok (some .null)
-         | some (.arr items) =>
-           match asName gs with
-           | none => unmodelled
-           | some name =>
-             (mapItems (fun item => evalAt (c.bind name item) "in" gs) items).bind
-               (fun r => .ok (some (.arr r)))
-         | some _ => .error .opFail)) := by
-  have h1 : classify "$map" = .array := by decide
-  have h2 := mode_shaped_doc "$map" gs (by simp)
-  simp only [eval, List.length_singleton, Nat.lt_irrefl, decide_false, Bool.false_and,
-    Bool.false_eq_true, if_false, evalDoc, h1, h2, evalOp, if_true]
+       else match asName gs with
+         | none => .error .opFail
+         | some name =>
+           if (!(validVarName name)) = true then .error .opFail
+           else (evalAt c "input" gs).bind (fun r =>
+             match r with
+             | none | some .null => .ok (some .null)
+             | some (.arr items) =>
+               (mapItems (fun item => evalAt (c.bind name item) "in" gs) items).bind
+                 (fun r => .ok (some (.arr r)))
+             | some _ => .error .opFail)) := by
+  rw [eval_shaped c "$map" _ (by decide) (by decide) (by decide) (by decide)
+    (Or.inl (by decide)) (mode_shaped_doc "$map" gs (by simp))]
+  simp only [evalOp, if_true]
   simp only [show ¬ ("$map" = "$let") by decide, if_false]
   split
   · rfl
   · split
     · rfl
-    · simp only [bind, Except.bind]
-      cases evalAt c "input" gs with
-      | error e => rfl
-      | ok r =>
-        cases r with
-        | none => rfl
-        | some v =>
-          cases v <;> try rfl
+    · cases asName gs with
+      | none => rfl
+      | some name =>
+        simp only
+        split
+        · rfl
+        · simp only [bind, Except.bind]
+          cases evalAt c "input" gs with
+          | error e => rfl
+          | ok r =>
+            cases r with
+            | none => rfl
+            | some v =>
+              cases v <;> try rfl
 
 /-- `$map` -/
 theorem map_case (c : Ctx) (root : Val) (env : Env) (hr : EnvRel c root env) (gs : Fields)
     (hsub : AllSubFields Agrees gs)
-    (hre : (match asVar gs with | .ok _ => [] | .error _ => ["laxargs"]) ++
-        rAt root env "input" gs ++
+    (hre : rAt root env "input" gs ++
         (match asVar gs, sAt root env "input" gs with
          | .ok name, .ok (some (.arr items)) =>
            (items.map (fun item => rAt root ((name, some item) :: env) "in" gs)).flatten
@@ -77,8 +90,7 @@ theorem map_case (c : Ctx) (root : Val) (env : Env) (hr : EnvRel c root env) (gs
             pure (some (.arr (rs.map (fun r => r.2.getD .null))))
           | some _ => .error .opFail) = .ok res) :
     eval c (.doc [("$map", .doc gs)]) = .ok res := by
-  obtain ⟨h12, h3⟩ := append_nil2 hre
-  obtain ⟨h1, h2⟩ := append_nil2 h12
+  obtain ⟨h2, h3⟩ := append_nil2 hre
   split at hres
   · cases hres
   · rename_i hcond
@@ -94,7 +106,7 @@ theorem map_case (c : Ctx) (root : Val) (env : Env) (hr : EnvRel c root env) (gs
       have e1 := at_agree c root env hr "input" gs vin hvin hsub h2
       rw [map_unfold]
       simp only [hcond'.1.1, hcond'.1.2, hcond'.2, Bool.not_true, Bool.or_self, Bool.false_eq_true,
-        if_false, e1, asVar_asName gs name hav]
+        if_false, e1, (asVar_asName gs name hav).1, (asVar_asName gs name hav).2]
       cases hin : sAt root env "input" gs with
       | error e => simp [hin] at hres
       | ok inp =>
